@@ -57,6 +57,8 @@ typedef struct {
 typedef struct {
   char id[40], opname[24], kinds[4], br[8], pre[12], post[12];
   int prime; /* -1: none; 0..3: an ADDO leaving (signed,unsigned) overflow = (prime&1, prime>>1) goes first */
+  int bover;       /* the branch under test jumps over an unconditional jump: `b L1; jmp L2; L1: ...` (the shape
+                      the simplifier rewrites with the reversed branch) */
   int press;       /* >0: register pressure, see build_case */
   uint64_t pmask;  /* defined bits of the result, for the comparison of the copies */
   opnd_t dst, x, y;
@@ -119,6 +121,7 @@ static int parse_case (char *line, case_t *c) {
     else if (strncmp (tok, "pre=", 4) == 0) strncpy (c->pre, tok + 4, 11);
     else if (strncmp (tok, "post=", 5) == 0) strncpy (c->post, tok + 5, 11);
     else if (strncmp (tok, "prime=", 6) == 0) c->prime = atoi (tok + 6);
+    else if (strncmp (tok, "bover=", 6) == 0) c->bover = atoi (tok + 6);
     else if (strncmp (tok, "press=", 6) == 0) c->press = atoi (tok + 6);
     else if (strncmp (tok, "pmask=", 6) == 0) c->pmask = (uint64_t) parse_hex (tok + 6);
     else return 0;
@@ -307,10 +310,20 @@ static MIR_item_t build_case (MIR_context_t ctx, case_t *c, const char *name) {
       app (&b, MIR_new_insn_arr (ctx, code, 1 + nsrc, ops));
       app (&b, MIR_new_insn (ctx, find_code (ctx, c->br), MIR_new_label_op (ctx, l1)));
     }
-    app (&b, MIR_new_insn (ctx, MIR_MOV, MIR_new_reg_op (ctx, flag), MIR_new_int_op (ctx, 0)));
-    app (&b, MIR_new_insn (ctx, MIR_JMP, MIR_new_label_op (ctx, le)));
-    app (&b, l1);
-    app (&b, MIR_new_insn (ctx, MIR_MOV, MIR_new_reg_op (ctx, flag), MIR_new_int_op (ctx, 1)));
+    if (c->bover) { /* b L1; jmp L2; L1: flag = 1; jmp Le; L2: flag = 0; Le: */
+      MIR_insn_t l2 = MIR_new_label (ctx);
+      app (&b, MIR_new_insn (ctx, MIR_JMP, MIR_new_label_op (ctx, l2)));
+      app (&b, l1);
+      app (&b, MIR_new_insn (ctx, MIR_MOV, MIR_new_reg_op (ctx, flag), MIR_new_int_op (ctx, 1)));
+      app (&b, MIR_new_insn (ctx, MIR_JMP, MIR_new_label_op (ctx, le)));
+      app (&b, l2);
+      app (&b, MIR_new_insn (ctx, MIR_MOV, MIR_new_reg_op (ctx, flag), MIR_new_int_op (ctx, 0)));
+    } else {
+      app (&b, MIR_new_insn (ctx, MIR_MOV, MIR_new_reg_op (ctx, flag), MIR_new_int_op (ctx, 0)));
+      app (&b, MIR_new_insn (ctx, MIR_JMP, MIR_new_label_op (ctx, le)));
+      app (&b, l1);
+      app (&b, MIR_new_insn (ctx, MIR_MOV, MIR_new_reg_op (ctx, flag), MIR_new_int_op (ctx, 1)));
+    }
     app (&b, le);
     app (&b, MIR_new_insn (ctx, MIR_MOV, blk (&b, MIR_T_I64, 112), MIR_new_reg_op (ctx, flag)));
   } else {
